@@ -224,6 +224,10 @@ def run_check(mod, tier, seed=0, procs=None, only=None):
         return EXIT_VIOLATION
     if errors:
         return EXIT_HARNESS
+    if any(o["status"] == "inconclusive" for o in notdis):
+        print(f"[{pid}] a symbolic counterexample could not be reproduced on the real "
+              "code (no VIOLATION claimed; see evidence.not_discharged)", file=sys.stderr)
+        return EXIT_HARNESS
     if n_dis == 0:
         print(f"[{pid}] nothing was discharged", file=sys.stderr)
         return EXIT_HARNESS
